@@ -1,19 +1,19 @@
-\* exhaustive (thorough tier: all codecs, constructors, dimensions), header / frame count / PTS: timebases, direct mode, start timestamps around the 32-bit
+\* exhaustive (thorough tier: two codecs, all constructors, two dimensions, three frames), header / frame count / PTS: timebases, direct mode, start timestamps around the 32-bit
 \* wrap, increments, seekable or not; single-packet frames, streams that satisfy the premise
 CONSTANTS
-  Codecs <- AllCodecs
+  Codecs = {"VP8", "AV1"}
   Mtus = {40}
   MaxFrames = 3
   Sizes = {5}
   RelSizes = FALSE
-  MaxRandSize = 0
+  MaxRandPk = 0
   Rates <- RatesAll
   Starts <- StartsWrap
   Deltas <- DeltasPts
   MaxRandDelta = 0
   Directs = {FALSE, TRUE}
   Ctors <- CtorsAll
-  Dims <- DimsAll
+  Dims <- DimsTwo
   Lossy = FALSE
   NonKeyStart = FALSE
   Pads = FALSE
